@@ -1,9 +1,10 @@
-import Juniper.Proofs.PipeLive
+import Juniper.Proofs.PipeQueue
 /-! Global progress measure of the `stream.Pipe` LTS: the per-call stages of `Proofs/PipeLive.lean`
 (`stage`, `rstage`) summed over all sender goroutines and the receiver. Every internal step (an arm of a
-`select` of some pending call, a rendez-vous) strictly decreases it, in every state; so no run of internal
-steps is longer than `2·senders + 2`, and a quiescent state is one in which every pending call waits for
-an action of the environment (a call of the peer, a `Close`, a context expiry). -/
+`select` of some pending call, a rendez-vous, a call parking) strictly decreases it, in every state; so no
+run of internal steps is longer than `2·senders + 3`, and a quiescent state is one in which every pending
+call is parked and waits for an action of the environment (a call of the peer, a `Close`, a context
+expiry). -/
 set_option linter.unusedSimpArgs false
 set_option linter.unusedVariables false
 namespace Juniper.Proofs.Pipe
@@ -13,7 +14,7 @@ def sumStage : List Sender → Nat
   | [] => 0
   | sd :: l => stage sd.pc + sumStage l
 
-/-- remaining `select` statements of all pending calls -/
+/-- own steps all pending calls have in front of them at most -/
 def mu (st : State) : Nat := sumStage st.senders + rstage st.rpc
 
 theorem sumStage_set {l : List Sender} {i : Nat} {sd sd' : Sender} (h : l[i]? = some sd) :
@@ -28,21 +29,30 @@ theorem sumStage_set {l : List Sender} {i : Nat} {sd sd' : Sender} (h : l[i]? = 
       have := ih h
       simp [List.set, sumStage]; omega
 
-theorem stage_le (pc : SPc) : stage pc ≤ 2 := by cases pc <;> simp [stage]
-theorem rstage_le (pc : RPc) : rstage pc ≤ 2 := by cases pc <;> simp [rstage]
+theorem stage_le (pc : SPc) : stage pc ≤ 2 := by
+  cases pc with
+  | send m p => cases p <;> simp [stage]
+  | _ => simp [stage]
+theorem rstage_le (pc : RPc) : rstage pc ≤ 3 := by
+  cases pc with
+  | next p => cases p <;> simp [rstage]
+  | _ => simp [rstage]
 
 theorem sumStage_le (l : List Sender) : sumStage l ≤ 2 * l.length := by
   induction l with
   | nil => simp [sumStage]
   | cons x xs ih => have := stage_le x.pc; simp only [sumStage, List.length_cons]; omega
 
-theorem mu_le (st : State) : mu st ≤ 2 * st.senders.length + 2 := by
+theorem mu_le (st : State) : mu st ≤ 2 * st.senders.length + 3 := by
   have := sumStage_le st.senders
   have := rstage_le st.rpc
   unfold mu; omega
 
 theorem rstage_pos_of_table {pc : RPc} {a : Arm} (h : (rtableOf pc).contains a = true) : 0 < rstage pc := by
-  cases pc <;> simp [rtableOf, rstage] at h ⊢
+  cases pc with
+  | next p => cases p <;> simp [rstage]
+  | idle => simp [rtableOf] at h
+  | drain => simp [rstage]
 
 /-- **Every internal step strictly decreases `mu`.** -/
 theorem mu_decreases {st st' : State} {l : Label} (h : step st l = some st') (hl : l.internal = true) :
@@ -56,16 +66,32 @@ theorem mu_decreases {st st' : State} {l : Label} (h : step st l = some st') (hl
     · simp only [mu, State.setSender] at *; omega
     · simp only [mu, State.setSender, commit] at *; omega
   | handoff i =>
-    obtain ⟨sd, m, hsd, hm, _, rfl⟩ := step_handoff h
+    obtain ⟨sd, m, hsd, hm, hch, rfl⟩ := step_handoff h
     have hlt := stage_after_lt (pc := sd.pc) (.send chData) hm
     have hset := sumStage_set (sd' := { sd with pc := sd.pc.after (.send chData) }) hsd
+    have hacc : 0 < rstage st.rpc := by
+      obtain ⟨_, _, hacc⟩ := canHandoff_facts hch
+      simp only [accepts] at hacc
+      exact rstage_pos_of_table hacc
     simp only [mu, State.setSender, commit, rstage] at *; omega
+  | park i =>
+    obtain ⟨sd, m, hsd, hpc, _, rfl⟩ := step_park h
+    have hset := sumStage_set (sd' := { sd with pc := .send m true }) hsd
+    simp only [mu, State.setSender, hpc, stage] at *; omega
+  | parkRecv =>
+    obtain ⟨hpc, _, rfl⟩ := step_parkRecv h
+    simp only [mu, hpc, rstage]; omega
   | recv a =>
     obtain ⟨htab, hcase⟩ := step_recv h
     have hpos := rstage_pos_of_table htab
     rcases hcase with ⟨m, rest, _, _, rfl⟩ | ⟨_, _, hpc, _, rfl⟩ | ⟨_, _, _, rfl⟩ | ⟨ch, _, _, _, rfl⟩ | ⟨_, hpc, _, rfl⟩
     · simp only [mu, rstage] at *; omega
-    · simp only [mu, hpc, rstage] at *; omega
+    · have : 2 ≤ rstage st.rpc := by
+        cases hr : st.rpc with
+        | next p => exact rstage_next_ge p
+        | idle => simp [hr, RPc.isNext] at hpc
+        | drain => simp [hr, RPc.isNext] at hpc
+      simp only [mu, rstage] at *; omega
     · simp only [mu, reportEnd, rstage] at *; omega
     · simp only [mu, rstage] at *; omega
     · simp only [mu, reportEnd, hpc, rstage] at *; omega
@@ -95,37 +121,46 @@ structure QuiescentFacts : Prop where
   next : NextFacts
   drains : nextDrains = true
 
-/-- **In a quiescent state every pending call waits for the environment.** No `TrySend` is pending; a
-pending `Send` has a live context, neither side is closed, the buffer is full and no rendez-vous is
-possible; the receiver is not in the drain, and a pending `Next` has a live context, an empty buffer, an
-open sender and no sender to take a hand-off from. -/
+/-- **In a quiescent state every pending call is parked and waits for the environment.** No `TrySend` is
+pending; a pending `Send` is parked, has a live context, neither side is closed, the buffer is full and
+no rendez-vous is possible; the receiver is not in the drain, and a pending `Next` is parked, has a live
+context, an empty buffer, an open sender and no sender to take a hand-off from. -/
 theorem quiescent_waits {st : State} (hF : QuiescentFacts) (hq : Quiescent st) :
     (∀ (i : Nat) (sd : Sender) (m : Msg), st.senders[i]? = some sd → sd.pc ≠ .try1 m ∧ sd.pc ≠ .try2 m) ∧
-    (∀ (i : Nat) (sd : Sender) (m : Msg), st.senders[i]? = some sd → sd.pc = .send m →
-      st.streamDone = false ∧ st.senderDone = false ∧ sd.ctx = false ∧ st.cap ≤ st.buf.length ∧
+    (∀ (i : Nat) (sd : Sender) (m : Msg) (p : Bool), st.senders[i]? = some sd → sd.pc = .send m p →
+      p = true ∧ st.streamDone = false ∧ st.senderDone = false ∧ sd.ctx = false ∧ st.cap ≤ st.buf.length ∧
       canHandoff st sd = false) ∧
     st.rpc ≠ .drain ∧
-    (st.rpc = .next → st.buf = [] ∧ st.senderDone = false ∧ st.rctx = false ∧
+    (∀ p : Bool, st.rpc = .next p → p = true ∧ st.buf = [] ∧ st.senderDone = false ∧ st.rctx = false ∧
       ∀ sd ∈ st.senders, canHandoff st sd = false) := by
   have none_of : ∀ {l st'}, l.internal = true → step st l = some st' → False := by
     intro l st' hl hs; rw [hq l hl] at hs; cases hs
+  have own_internal : ∀ {i l}, ownLabel i l → l.internal = true := by
+    intro i l hl
+    rcases hl with rfl | rfl | ⟨a, rfl⟩ <;> rfl
   refine ⟨?_, ?_, ?_, ?_⟩
   · intro i sd m hsd
     constructor <;> intro hpc
     · obtain ⟨l, st', hl, hs⟩ := trySend_enabled hF.try_ hsd (Or.inl hpc)
-      rcases hl with rfl | ⟨a, rfl⟩ <;> exact none_of rfl hs
+      exact none_of (own_internal hl) hs
     · obtain ⟨l, st', hl, hs⟩ := trySend_enabled hF.try_ hsd (Or.inr hpc)
-      rcases hl with rfl | ⟨a, rfl⟩ <;> exact none_of rfl hs
-  · intro i sd m hsd hpc
+      exact none_of (own_internal hl) hs
+  · intro i sd m p hsd hpc
     have hm : sd.pc.msg? = some m := by rw [hpc]; rfl
+    have hp : p = true := by
+      cases p with
+      | true => rfl
+      | false =>
+        obtain ⟨l, st', hl, hs⟩ := send_poll_enabled hsd hpc
+        exact (none_of (own_internal hl) hs).elim
     have hcond : ¬ SendCond st sd := by
       intro hc
-      obtain ⟨a, st', hs⟩ := send_enabled hF.send hsd hpc hc
+      obtain ⟨a, st', _, hs, _⟩ := send_enabled hF.send hsd hpc hc
       exact none_of rfl hs
     have h1 : st.streamDone = false := by cases h : st.streamDone <;> simp_all [SendCond]
     have h2 : st.senderDone = false := by cases h : st.senderDone <;> simp_all [SendCond]
     have h3 : sd.ctx = false := by cases h : sd.ctx <;> simp_all [SendCond]
-    refine ⟨h1, h2, h3, ?_, ?_⟩
+    refine ⟨hp, h1, h2, h3, ?_, ?_⟩
     · by_cases hlt : st.buf.length < st.cap
       · exfalso
         have htab : (tableOf sd.pc).contains (.send chData) = true := by rw [hpc]; exact hF.sendData
@@ -138,12 +173,18 @@ theorem quiescent_waits {st : State} (hF : QuiescentFacts) (hq : Quiescent st) :
   · intro hpc
     obtain ⟨l, st', hl, hs, _⟩ := drain_enabled hF.next hF.drains hpc
     cases l <;> simp [isRecvLabel] at hl <;> exact none_of rfl hs
-  · intro hpc
+  · intro p hpc
+    have hp : p = true := by
+      cases p with
+      | true => rfl
+      | false =>
+        obtain ⟨l, st', hl, hs, _⟩ := next_poll_enabled hpc
+        cases l <;> simp [isRecvLabel] at hl <;> exact (none_of rfl hs).elim
     have hcond : ¬ NextCond st := by
       intro hc
       obtain ⟨l, st', hl, hs, _⟩ := next_enabled hF.next hpc hc
       cases l <;> simp [isRecvLabel] at hl <;> exact none_of rfl hs
-    refine ⟨?_, ?_, ?_, ?_⟩
+    refine ⟨hp, ?_, ?_, ?_, ?_⟩
     · cases hb : st.buf with
       | nil => rfl
       | cons m r => exact (hcond (Or.inl (by simp [hb]))).elim
@@ -157,5 +198,19 @@ theorem quiescent_waits {st : State} (hF : QuiescentFacts) (hq : Quiescent st) :
       cases h : canHandoff st sd with
       | false => rfl
       | true => exact (hcond (Or.inr (Or.inl ⟨sd, hmem, h⟩))).elim
+
+/-- **No lost rendez-vous.** In a reachable quiescent state of an unbuffered pipe a `Send` and a `Next`
+are not both pending: each would be parked (`quiescent_waits`), and the wait-queue discipline (`QInv`)
+excludes that. -/
+theorem quiescent_unbuffered_not_both {n : Nat} {st : State} (hF : QuiescentFacts)
+    (hr : Reach (init n 0) st) (hcap : st.cap = 0) (hq : Quiescent st)
+    {i : Nat} {sd : Sender} {m : Msg} {p q : Bool}
+    (hsd : st.senders[i]? = some sd) (hpc : sd.pc = .send m p) (hn : st.rpc = .next q) : False := by
+  obtain ⟨_, hS, _, hN⟩ := quiescent_waits hF hq
+  obtain ⟨hp, _⟩ := hS i sd m p hsd hpc
+  obtain ⟨hq', _⟩ := hN q hn
+  subst hp; subst hq'
+  have := qinv_reach ⟨hF.sendData, hF.next.dataArm⟩ hr hcap (by simp [hn, RPc.parked]) sd (List.mem_of_getElem? hsd)
+  simp [hpc, SPc.parked] at this
 
 end Juniper.Proofs.Pipe
